@@ -7,7 +7,11 @@ MCCompCX == <<"c", "x">>
 \* r1: exchange reaction of s1; r2: exchange reaction of s1,s2; r3: XC reaction of s2,s3; r4: XC of s1;
 \* r5: XC reaction that lists a system TWICE (a dimer binding written A2 - A - A): for the state machine only the set of
 \* systems matters, the harness's label / covariance oracle sums the stoichiometric counts entry by entry
-MCRxns == [r1 |-> [mode |-> 0, structs |-> {"s1"}], r2 |-> [mode |-> 0, structs |-> {"s1", "s2"}],
-           r3 |-> [mode |-> 2, structs |-> {"s2", "s3"}], r4 |-> [mode |-> 2, structs |-> {"s1"}],
-           r5 |-> [mode |-> 2, structs |-> {"s1", "s2"}]]
+\* r6: exchange reaction that is ONE orbital-derivative entry (s1, O0); r7: exchange reaction mixing a derivative entry of s2
+\* with the plain system s1; r8: an XC reaction with a derivative entry (the code fails at the Kohn-Sham baseline lookup)
+MCRxns == [r1 |-> [mode |-> 0, structs |-> {"s1"}, dstructs |-> {}], r2 |-> [mode |-> 0, structs |-> {"s1", "s2"}, dstructs |-> {}],
+           r3 |-> [mode |-> 2, structs |-> {"s2", "s3"}, dstructs |-> {}], r4 |-> [mode |-> 2, structs |-> {"s1"}, dstructs |-> {}],
+           r5 |-> [mode |-> 2, structs |-> {"s1", "s2"}, dstructs |-> {}],
+           r6 |-> [mode |-> 0, structs |-> {}, dstructs |-> {"s1"}], r7 |-> [mode |-> 0, structs |-> {"s1"}, dstructs |-> {"s2"}],
+           r8 |-> [mode |-> 2, structs |-> {"s1"}, dstructs |-> {"s1"}]]
 ====
